@@ -98,6 +98,13 @@ fn plans_c06(tier: Tier) -> Vec<Plan> {
     c2.prelude.push(Act::Stall { c: 0 });
     c2.prelude.push(Act::Burst { c: 1, t: 0, qos: 0, n: 250 });
     v.push(Plan { cfg: c2, depth_by_devs: if q { vec![2] } else { vec![3, 3] } });
+    // requests of a subscriber whose link holds 150 uncollected forwards (not yet busy)
+    let mut c4 = c.clone();
+    c4.variant = 4;
+    c4.prelude.push(Act::Sub { c: 0, f: 0, qos: 0 });
+    c4.prelude.push(Act::Stall { c: 0 });
+    c4.prelude.push(Act::Burst { c: 1, t: 0, qos: 0, n: 150 });
+    v.push(Plan { cfg: c4, depth_by_devs: if q { vec![2] } else { vec![3, 3] } });
     // MQTT 5 requesters (acks and releases may carry properties)
     let mut c3 = c.clone();
     c3.v5 = vec![true, false, true, false, false];
